@@ -96,14 +96,22 @@ func ruleF2(c *Ctx, id string) {
 		callee *ssa.Function
 		owner  *ssa.Function
 	}{{V.PostCommit, V.postCommit}, {V.PostAbort, V.Abort}} {
-		if pr.callee == nil || pr.owner == nil {
+		if pr.callee == nil {
 			continue
 		}
 		for _, cs := range P.CallersOf(pr.callee) {
 			if !IsRepoFunc(cs.Caller) {
 				continue
 			}
-			okCaller := cs.Caller == pr.owner
+			okCaller := pr.owner != nil && cs.Caller == pr.owner
+			if pr.owner == nil && pr.callee == V.PostCommit {
+				// no postCommit wrapper in this tree: the epilogue is written out in the commit funnel itself
+				for _, f := range []*ssa.Function{V.commitWait, V.CommitFh, V.Commit, V.CommitData, V.CommitUnstable} {
+					if f != nil && partOf(cs.Caller, f) {
+						okCaller = true
+					}
+				}
+			}
 			if fb := funnelBody(c, V.commitWait, funcIs(V.JrnlCommitWait)).Fn; !okCaller && pr.callee == V.PostAbort && cs.Caller == fb {
 				// the undo of a commit the journal refused: only on the false side of jrnl.CommitWait
 				for _, jc := range P.CallsIn(fb, funcIs(V.JrnlCommitWait)) {
@@ -112,13 +120,16 @@ func ruleF2(c *Ctx, id string) {
 					}
 				}
 			}
-			R.Check(okCaller, id, FuncName(cs.Caller)+"|calls "+pr.callee.Name(), P.Pos(cs.Instr.Pos()), pr.callee.Name()+" is called only from "+FuncName(pr.owner)+" (PostAbort also on the refused-commit side of the funnel)", "owner", "allocator state updated outside the commit/abort epilogue")
+			R.Check(okCaller, id, FuncName(cs.Caller)+"|calls "+pr.callee.Name(), P.Pos(cs.Instr.Pos()), pr.callee.Name()+" is called only from the commit / abort epilogue (PostAbort also on the refused-commit side of the funnel)", "owner", "allocator state updated outside the commit/abort epilogue")
+		}
+		if pr.owner == nil {
+			continue
 		}
 		entry := pr.owner.Blocks[0].Instrs[0]
 		R.Check(MustAfter(pr.owner, callTo(pr.callee), nil)(entry), id, FuncName(pr.owner)+"|always "+pr.callee.Name(), P.Pos(pr.owner.Pos()), "every path of "+FuncName(pr.owner)+" calls "+pr.callee.Name(), "must-follow from entry", "a path skips the allocator epilogue: freed numbers are never reusable / aborted allocations are never returned")
 	}
 	// ... or, on the side where the journal refused the commit, the abort epilogue (which side is which: C09.A8)
-	post := P.NewAlways(func(in ssa.Instruction) bool { return callTo(V.postCommit)(in) || callTo(V.PostAbort)(in) })
+	post := P.NewAlways(func(in ssa.Instruction) bool { return callTo(V.PostCommit)(in) || callTo(V.PostAbort)(in) })
 	for _, f := range []*ssa.Function{V.Commit, V.CommitData, V.CommitUnstable, V.CommitFh} {
 		if f == nil {
 			continue
@@ -215,7 +226,11 @@ func ruleF8(c *Ctx, id string) {
 		return
 	}
 	R.Analysed[FuncName(ind)] = true
-	root, bn := ssa.Value(ind.Params[2]), ssa.Value(ind.Params[4])
+	root, bn := paramM(ind, 2), paramM(ind, 4)
+	if root == nil || bn == nil {
+		R.Undecided(id, "inode.indshrink|answers", P.Pos(ind.Pos()), "indshrink takes (op, root, level, bn)", "unexpected parameter list")
+		return
+	}
 	// edges on which the slot is known not to be the first one: (bn / d) != 0 or (bn % d) != 0
 	notFirst := condEdge(ind, func(cd Cond) (bool, bool) {
 		bo, ok := stripConv(cd.X).(*ssa.BinOp)
@@ -307,7 +322,11 @@ func ruleF10(c *Ctx, id string) {
 		return
 	}
 	R.Analysed[FuncName(ind)] = true
-	rootParam := ssa.Value(ind.Params[2])
+	rootParam := paramM(ind, 2)
+	if rootParam == nil {
+		R.Undecided(id, "inode.indbmap|recursive mapping", P.Pos(ind.Pos()), "indbmap takes (atxn, root, level, off)", "unexpected parameter list")
+		return
+	}
 	var rc *ssa.Call
 	for _, call := range P.CallsIn(ind, funcIs(ind)) {
 		rc = call.(*ssa.Call)
@@ -406,7 +425,7 @@ func ruleF10(c *Ctx, id string) {
 		}
 	}
 	// the sub-root passed down: first value argument of the recursive call after the receiver/atxn
-	passed := rc.Call.Args[2]
+	passed := rc.Call.Args[len(rc.Call.Args)-3] // indbmap(..., root, level, off): the same position in the method and in the function form
 	okB := MustAfterE(ind, isFree(sub), nil, or(mapped, same(sub, passed)))(rc)
 	R.Check(okB, id, "inode.indbmap|unused sub-root freed", P.Pos(rc.Pos()), "when the recursive call mapped no block but returned a sub-root other than the one passed down, that sub-root is freed", "must-follow except on the mapped / unchanged edges", "a sub-root allocated for nothing stays allocated")
 	// own root: phi of the parameter and an AllocBlock result
